@@ -2119,7 +2119,12 @@ class ImageIterator:
         try:
             self._animator.close()
             del self._animator
-            self._image._close_image(self._img)
+            # Not `self._image._close_image(self._img)`: the image may have been
+            # finalized (and its `_source` deleted) while this iterator was still
+            # open. The file opened for the iterator must still be closed; a PIL
+            # image source never is.
+            if self._image._source_type is not ImageSource.PIL_IMAGE:
+                self._img.close()
             del self._img
         except AttributeError:
             pass
